@@ -4,6 +4,7 @@ import os, sys
 sys.path.insert(0, os.path.dirname(os.path.abspath(__file__)))
 sys.path.insert(0, os.path.dirname(os.path.dirname(os.path.abspath(__file__))))
 import streamlib
+import common
 from streams import sbt
 from streams import nodegraph as ng
 
@@ -20,13 +21,82 @@ RULE = ("sbt stream: 1..60 insertions (thorough: up to 300) of sketches of scale
         "per-case pool incl. 0, 2^63, 2^64-1; d in 2..10; Bloom table request 3 bits..1e5, 1..4 tables; dump after insertions; then "
         "save(sparseness in {0,.3,.5,.9,1}) + load (index versions 1..6, cache sizes None/1/2/3/5/50), repairs (_rebuild_node, "
         "_fill_internal, _fill_min_n_below), searches (Jaccard/containment/max containment, thresholds 0..1, query scaled equal, finer or coarser than the tree) compared with a linear scan, select(), and insertions "
-        "after the load; non-trivial = >= 3 accepted insertions and >= 1 successful dump; distinct = distinct op lists. "
+        "after the load; load -> insert -> save to another location (zip/FS/nested FS) -> searches and Cover on the tree still in memory and on the saved copy reloaded; non-trivial = >= 3 accepted insertions and >= 1 successful dump; distinct = distinct op lists. "
         "nodegraph sub-stream: count/get/matches/update/round trips on filters of requested size 1..1e5, 0..5 tables, hand-made images with "
         "sizes that are multiples of 32 and bits beyond the size")
 
 
+def cli_append(chk, pkg):
+    """`sourmash index`, then `sourmash index --append`, then `sourmash search` for every signature (real command
+    line, in-process): every signature indexed in either step must be found again (oracle only)"""
+    import csv
+    import shutil
+    import tempfile
+    import cli_lib
+    n_sc = 12 if chk.tier == "thorough" else 3
+    runner = cli_lib.ServerRunner(pkg)
+    root = os.path.join(os.path.dirname(os.path.dirname(os.path.dirname(os.path.abspath(__file__)))), ".build", "tmp")
+    os.makedirs(root, exist_ok=True)
+    rng = chk.rng
+    done = 0
+    try:
+        for sc in range(n_sc):
+            d = tempfile.mkdtemp(prefix="c13cli_", dir=root)
+            try:
+                n1, n2 = rng.randint(1, 6), rng.randint(1, 4)
+                sigs = {}
+                for i in range(n1 + n2):
+                    hs = sorted(rng.sample(range(1, 10 ** 6), rng.randint(1, 6)))
+                    sigs[str(i)] = {"name": i, "scaled": 1, "track": 0, "pairs": [[h, 1] for h in hs]}
+                files = [{"path": f"s{i}.sig", "kind": "sig", "sigs": [i]} for i in range(n1 + n2)]
+                ok, err = runner.write({"dir": d, "sigs": sigs, "files": files})
+                if not ok:
+                    raise common.ToolFailure("cli_files: " + err)
+                db = os.path.join(d, rng.choice(["db.sbt.zip", "db.sbt.json"]))
+                sparse = rng.choice(["0.0", "0.0", "0.5", "1.0"])
+                dd = str(rng.choice([2, 2, 3, 5]))
+                steps = [["index", "-q", "-k", "21", "--dna", "-d", dd, "--sparseness", sparse, db] +
+                         [os.path.join(d, f"s{i}.sig") for i in range(n1)],
+                         ["index", "-q", "--append", "-k", "21", "--dna", "--sparseness", rng.choice(["0.0", "0.0", "0.5"]), db] +
+                         [os.path.join(d, f"s{i}.sig") for i in range(n1, n1 + n2)]]
+                hist = []
+                bad = None
+                for argv in steps:
+                    rc, out, err = runner.run(argv, d)
+                    hist.append(" ".join(os.path.basename(a) if a.startswith(d) else a for a in argv))
+                    if rc != 0:
+                        bad = f"`sourmash {hist[-1]}` exited {rc}: {err[-300:]}"
+                        break
+                missing = []
+                if bad is None:
+                    for i in range(n1 + n2):
+                        outp = os.path.join(d, f"o{i}.csv")
+                        rc, out, err = runner.run(["search", "-q", "-k", "21", "--dna", "--threshold", "0.99",
+                                                   os.path.join(d, f"s{i}.sig"), db, "-o", outp], d)
+                        names = set()
+                        if rc == 0 and os.path.exists(outp):
+                            names = {r["name"] for r in csv.DictReader(open(outp))}
+                        if rc != 0 or str(i) not in names:
+                            missing.append((i, rc, err[-200:] if rc else ""))
+                chk.cov["evaluations"] += 1
+                done += 1
+                if bad is not None:
+                    chk.add_violation("oracle", "C13:cli-append:command-failed", bad, {"history": hist})
+                elif missing:
+                    chk.add_violation("oracle", "C13:cli-append:signature-not-found",
+                                      f"after `index` of {n1} and `index --append` of {n2} signatures (d={dd}, sparseness {sparse}), "
+                                      f"`sourmash search` does not find signature(s) {[m[0] for m in missing][:6]} in the index",
+                                      {"history": hist, "missing": missing, "sigs": sigs})
+            finally:
+                shutil.rmtree(d, ignore_errors=True)
+    finally:
+        runner.close()
+    chk.cov["cli_append_scenarios"] = done
+
+
 def extra(chk, pkg):
-    """the nodegraph sub-stream"""
+    """the nodegraph sub-stream, then the `index --append` command-line route"""
+    cli_append(chk, pkg)
     n = 5000 if chk.tier == "thorough" else 400
     fl = ["std", "std", "std", "std", "big"]
     cases = streamlib.corpus_cases("C13ng")
@@ -80,7 +150,7 @@ def extra(chk, pkg):
 
 if __name__ == "__main__":
     thorough = "thorough" in sys.argv or os.environ.get("VERIF_TIER") == "thorough"
-    fl = ["insert", "small", "sparse", "reinsert", "big", "sparse", "insert", "legacy", "reinsert", "small"]
+    fl = ["insert", "small", "sparse", "reinsert", "big", "sparse", "insert", "legacy", "reinsert", "small", "resave"]
     if thorough:
-        fl = ["insertT", "small", "sparseT", "reinsert", "big", "sparse", "insert", "legacy", "reinsert", "small"]
+        fl = ["insertT", "small", "sparseT", "reinsert", "big", "sparse", "insert", "legacy", "reinsert", "small", "resave"]
     streamlib.run_property("C13", sbt, fl, sbt.oracle, 900, 20000, TB, AS, RULE, nontrivial=sbt.nontrivial, extra=extra)
